@@ -247,7 +247,7 @@ class _Gen:
         rng = self.rng
         sw = self.sw
         heavy = sw['heavy']
-        w: dict[str, float] = {'READ': 3.0, 'CREATE': 2.0, 'BADCONFIG': 0.4}
+        w: dict[str, float] = {'READ': 3.0, 'CREATE': 2.0 if heavy else 0.9, 'BADCONFIG': 0.4}
         if depth < sw['depth'] and budget >= 2:
             w['BLOCK'] = 6.0 if depth == 0 else 4.0
         if budget >= 2:
